@@ -3054,7 +3054,10 @@ impl Cuesheet {
                                     f,
                                     "    INDEX {:02} {}",
                                     index.number,
-                                    Timestamp::from(u64::from(index.offset + track.offset)),
+                                    Timestamp::from(
+                                        u64::from(index.offset)
+                                            .saturating_add(u64::from(track.offset))
+                                    ),
                                 )?;
                             }
                         }
@@ -3076,7 +3079,7 @@ impl Cuesheet {
                                     f,
                                     "    INDEX {:02} {}",
                                     index.number,
-                                    Timestamp::from(index.offset + track.offset),
+                                    Timestamp::from(index.offset.saturating_add(track.offset)),
                                 )?;
                             }
                         }
@@ -3319,7 +3322,7 @@ impl Cuesheet {
             } => Box::new(
                 tracks
                     .iter()
-                    .map(|t| u64::from(t.offset + *t.index_points.start()))
+                    .map(|t| u64::from(t.offset).saturating_add(u64::from(*t.index_points.start())))
                     .chain(std::iter::once(u64::from(lead_out.offset))),
             ),
             Self::NonCDDA {
@@ -3327,7 +3330,7 @@ impl Cuesheet {
             } => Box::new(
                 tracks
                     .iter()
-                    .map(|t| t.offset + t.index_points.start())
+                    .map(|t| t.offset.saturating_add(*t.index_points.start()))
                     .chain(std::iter::once(lead_out.offset)),
             ),
         }
@@ -3423,7 +3426,9 @@ impl Cuesheet {
         let multiplier = u64::from(channel_count) * u64::from(bits_per_sample.div_ceil(8));
 
         self.track_sample_ranges()
-            .map(move |std::ops::Range { start, end }| start * multiplier..end * multiplier)
+            .map(move |std::ops::Range { start, end }| {
+                start.saturating_mul(multiplier)..end.saturating_mul(multiplier)
+            })
     }
 }
 
